@@ -1,7 +1,7 @@
 """C01 -- state changes follow the lifecycle graph; terminal states are final."""
 import itertools
 
-from pv import judges, lifecycle, plans, programs
+from pv import judges, lifecycle, plans, programs, suiterun
 
 ID = 'C01'
 TITLE = 'lifecycle graph / terminal finality'
@@ -13,7 +13,7 @@ RULE = ('programs x placements of K<=2 (thorough: sampled K=3) requests from {pa
         'non-trivial when at least one request was applied and the process terminated')
 ASSUMPTIONS = ['lifecycle hooks do not raise (C03 owns that)', 'single-threaded deterministic event loop, no timers',
                'private attributes are read for coverage accounting only']
-REQUIRED = ['transitions', 'acts_after_terminal', 'samples', 'oneshot_callbacks_fired', 'recreated_with_broken_observers', 'failing_cleanup_runs']
+REQUIRED = ['transitions', 'acts_after_terminal', 'samples', 'oneshot_callbacks_fired', 'recreated_with_broken_observers', 'failing_cleanup_runs', 'suite_edges', 'suite_processes']
 ALPHABET = [['pause', 'p'], ['play'], ['kill', 'k'], ['resume', ['v']], ['fail', 'f'], ['soon_ok', 'c'], ['soon_raise', 'c']]
 BOUNDS = {'quick': 'basic program family (14) K<=2 exhaustive over slots + 8 random programs (K=2 quarter-sampled)', 'thorough': 'K=3 exhaustive on 4 key programs, + 40 random programs, K=3 sampled'}
 
@@ -22,6 +22,12 @@ DEEP = ('wait_async', 'cont_async', 'out_async', 'wait2')  # thorough: K=3 exhau
 
 
 def gen_cases(tier, seed):
+    yield {'kind': 'suite', 'name': 'repository-suite', 'plan': []}
+    for c in _gen_cases(tier, seed):
+        yield c
+
+
+def _gen_cases(tier, seed):
     progs = dict(programs.basic_programs())
     progs.update(programs.awkward_programs())
     rng = plans.rng_for(seed, 'c01')
@@ -66,7 +72,36 @@ def gen_cases(tier, seed):
                 yield dict({'name': name, 'program': prog, 'plan': plans.uniq(plan, 'r%d' % i), 'drain': True, 'barrage': True, 'probe': False}, **variant)
 
 
+def run_suite(case):
+    """The repository's own test suite under the same oracle (pv/suitemon.py): every state entered by every process the suite creates."""
+    r = suiterun.run()
+    obs = {'transitions': {}, 'samples': 0, 'acts_after_terminal': 0, 'acts': {}, 'suite_runs': 1, 'suite_processes': 0, 'suite_edges': 0, 'suite_hook_fault_edges': 0}
+    if 'error' in r:
+        return {'viol': [], 'obs': obs, 'inconclusive': r['error'], 'key': ['suite'], 'nontrivial': False}
+    viol = []
+    V = judges.V
+    for rec in r['records']:
+        if rec['kind'] == 'edge':
+            obs['suite_edges'] += 1
+            k = 'suite:%s->%s' % tuple(rec['edge'])
+            obs['transitions'][k] = obs['transitions'].get(k, 0) + 1
+            if rec['edge'][0] is None:
+                obs['suite_processes'] += 1
+        elif rec['kind'] == 'hook-fault-edge':
+            obs['suite_hook_fault_edges'] += 1
+        elif rec['kind'] == 'illegal-edge':
+            viol.append(V('illegal-edge', 'illegal-edge:%s->%s:suite' % tuple(rec['edge']), 'in %s a %s went %s -> %s, which is not an edge of the lifecycle graph' % (
+                rec['test'], rec['cls'], rec['edge'][0], rec['edge'][1])))
+        elif rec['kind'] == 'entered-after-terminal':
+            viol.append(V('terminal-changed', 'terminal-changed:%s->%s:suite' % (rec['terminal'], rec['edge'][1]), 'in %s a %s entered %s after the terminal state %s' % (
+                rec['test'], rec['cls'], rec['edge'][1], rec['terminal'])))
+    return {'viol': judges._dedupe(viol), 'obs': obs, 'inconclusive': None, 'key': ['suite'], 'nontrivial': True,
+            'sample': {'workload': 'repository test suite under pv.suitemon', 'pytest': r['tail'], 'processes': obs['suite_processes'], 'edges': obs['suite_edges']}}
+
+
 def run_case(case):
+    if case.get('kind') == 'suite':
+        return run_suite(case)
     rec = lifecycle.run_case(case)
     viol = judges.judge_c01(rec)
     obs = {'transitions': {}, 'samples': 0, 'acts_after_terminal': 0, 'acts': {}, 'oneshot_callbacks_fired': sum(1 for e in rec['events'] if e[0] == 'oneshot'),
